@@ -732,7 +732,8 @@ impl DnsListenerHandler {
             ) {
                 Ok(msg) => {
                     let in_reply = Self::recv_in_query(&q, &msg).await.unwrap();
-                    let in_reply_bytes = in_reply.serialise();
+                    let in_reply_bytes =
+                        Self::prepare_to_send(&in_reply, msg.in_query.bufsize as usize);
                     if !Self::should_ratelimit(
                         &msg,
                         &in_reply,
@@ -820,7 +821,7 @@ impl DnsListenerHandler {
                 Ok(msg) => {
                     let in_reply = Self::recv_in_query(&q, &msg).await.unwrap();
                     let serialised =
-                        Self::prepare_to_send(&in_reply, msg.in_query.bufsize as usize);
+                        Self::prepare_to_send(&in_reply, usize::from(u16::MAX));
                     let mut in_reply_bytes = Vec::with_capacity(2 + serialised.len());
                     in_reply_bytes.extend((serialised.len() as u16).to_be_bytes().iter());
                     in_reply_bytes.extend(serialised);
